@@ -65,9 +65,10 @@ def _case(draw):
     pending = 0         # queued events (rough)
     waiting = set()     # 'exit' without 'tomb'
     handed = 0          # cleanup links (rough)
+    evicted = None      # instance index of the last 'del'
     # aimed openings: nothing / a running instance / an old generation in
     # cleanup next to the new one / a container that finished on its own
-    opening = draw(st.sampled_from([0, 1, 2, 2, 3]))
+    opening = draw(st.sampled_from([0, 1, 2, 2, 3, 4]))
     if opening:
         ops += [['put', 0, 1], ['ready', 1], ['deliver', 99]]
         cached.add(0)
@@ -76,6 +77,10 @@ def _case(draw):
     if opening == 2:
         ops += [['del', 0], ['deliver', 99], ['put', 0, 1], ['deliver', 99]]
         handed = 1
+    elif opening == 4:
+        # evicted and placed again, both events still queued
+        ops += [['del', 0], ['put', 0, 1]]
+        pending = 2
     elif opening == 3:
         ops += [['finish', 0, draw(st.sampled_from(KINDS))]]
         handed = 1
@@ -84,7 +89,10 @@ def _case(draw):
         for idx, w_put, w_del, w_fin in ((0, 8, 5, 4), (1, 3, 2, 2),
                                          (2, 2, 1, 1)):
             if idx not in cached:
-                choices.append((w_put, ('put', idx)))
+                # placed again right away (delete event still queued) is the
+                # interesting order
+                choices.append((w_put * 3 if idx == evicted and pending
+                                else w_put, ('put', idx)))
             else:
                 choices.append((w_del, ('del', idx)))
                 if not ready:
@@ -113,6 +121,7 @@ def _case(draw):
             pending += 1
         elif kind == 'del':
             ops.append(['del', pick[1]])
+            evicted = pick[1]
             cached.discard(pick[1])
             pending += 1
             handed += 1
@@ -200,6 +209,10 @@ def fixed_cases():
         # X evicted while the manager was down: the container must go
         ('evicted-while-manager-down', {'salt': 0, 'ops': running + [
             ['restart'], ['del', 0], ['ready', 1], ['deliver', 99]]}),
+        # X evicted and placed again, both events handled afterwards, no
+        # resynchronisation: the old container goes, the new one runs
+        ('replaced-with-both-events-queued', {'salt': 0, 'ops': running + [
+            ['del', 0], ['put', 0, 1], ['deliver', 99]]}),
         # delete event handled after X was placed again and configured
         ('stale-delete-event', {'salt': 0, 'ops': [
             ['put', 0, 1], ['ready', 1], ['del', 0], ['put', 0, 1],
